@@ -3,7 +3,7 @@ from __future__ import annotations
 
 import ast
 
-from sa.astx import call_name, dotted, lincmp, src, walk_local
+from sa.astx import call_name, dotted, lincmp, walk_local
 from sa.effects import class_accesses
 from sa.selftest import Mutant, Silent
 from sa.source import AnalysisError, methods, mro_lookup
